@@ -72,23 +72,35 @@ Print Assumptions C04_model_updates_never_backwards.
 Example C04_example :
   exists a, asteps a_init a /\ all_delivered 2 a /\ a_status a 0%nat 7 = Halted /\ a_status a 1%nat 7 = Halted.
 Proof.
-  pose (s1 := fun id => if Z.eqb id 7 then Active 1 1 else Absent).
-  pose (a1 := mkA (fun k id => if Nat.eqb k 0 then s1 id else Absent) ([] ++ map (fun id => (0%nat, id, s1 id)) [7])).
-  pose (m1 := [(0%nat, 7, Active 1 1)]).
-  pose (a2 := mkA (fun k id => if Nat.eqb k 1 then join_facts id m1 (a_status a1 k id) else a_status a1 k id) (a_emitted a1)).
-  pose (s2 := fun id => if Z.eqb id 7 then Halted else a_status a2 1%nat id).
-  pose (a3 := mkA (fun k id => if Nat.eqb k 1 then s2 id else a_status a2 k id) (a_emitted a2 ++ map (fun id => (1%nat, id, s2 id)) [7])).
-  pose (m2 := [(1%nat, 7, Halted)]).
-  pose (a4 := mkA (fun k id => if Nat.eqb k 0 then join_facts id m2 (a_status a3 k id) else a_status a3 k id) (a_emitted a3)).
+  pose (f1 := (0%nat, 7, Active 1 1)). pose (f2 := (1%nat, 7, Halted)).
+  pose (a1 := mkA (fun k id => if Nat.eqb k 0 && Z.eqb id 7 then Active 1 1 else Absent) [f1]).
+  pose (a2 := mkA (fun k id => if Z.eqb id 7 then Active 1 1 else Absent) [f1]).
+  pose (a3 := mkA (fun k id => if Z.eqb id 7 then (if Nat.eqb k 1 then Halted else Active 1 1) else Absent) [f1; f2]).
+  pose (a4 := mkA (fun k id => if Z.eqb id 7 then Halted else Absent) [f1; f2]).
+  assert (Hk : forall k, k <> 0%nat -> k <> 1%nat -> (k =? 1)%nat = false) by (intros k _ H; now apply Nat.eqb_neq).
   exists a4. split; [|split; [|split; reflexivity]].
   - eapply AS_step; [eapply AS_step; [eapply AS_step; [eapply AS_step; [apply AS_refl|]|]|]|].
-    + apply (A_local_emit 0 a_init s1 [7]).
+    + apply (A_local 0 a_init a1 [f1]); simpl.
       * intro id. reflexivity.
-      * intros id H. unfold s1 in H. simpl in H. destruct (Z.eqb_spec id 7); [left; congruence|congruence].
-    + apply (A_deliver 1 a1 m1). intros f [<-|[]]. simpl. now left.
-    + apply (A_local_emit 1 a2 s2 [7]).
-      * intro id. unfold s2. destruct (Z.eqb_spec id 7) as [->|]; [reflexivity|apply st_le_refl].
-      * intros id H. unfold s2 in H. destruct (Z.eqb_spec id 7); [left; congruence|congruence].
-    + apply (A_deliver 0 a3 m2). intros f [<-|[]]. simpl. right. now left.
+      * intros k id Hk0. destruct k; [congruence|reflexivity].
+      * intros id H. destruct (Z.eqb_spec id 7) as [->|]; [now left|congruence].
+      * reflexivity.
+    + apply (A_deliver 1 a1 a2 [f1]); simpl.
+      * intros f [<-|[]]. now left.
+      * intro id. unfold join_facts. simpl. destruct (Z.eqb_spec id 7) as [->|Hn]; simpl; [reflexivity|].
+        destruct (Z.eqb_spec 7 id); [congruence|reflexivity].
+      * intros k id Hk1. destruct k as [|[|k]]; simpl; [reflexivity|congruence|]. now destruct (Z.eqb id 7).
+      * reflexivity.
+    + apply (A_local 1 a2 a3 [f2]); simpl.
+      * intro id. destruct (Z.eqb id 7); reflexivity.
+      * intros k id Hk1. destruct k as [|[|k]]; simpl; try reflexivity. congruence.
+      * intros id H. destruct (Z.eqb_spec id 7) as [->|]; [now left|congruence].
+      * reflexivity.
+    + apply (A_deliver 0 a3 a4 [f2]); simpl.
+      * intros f [<-|[]]. right. now left.
+      * intro id. unfold join_facts. simpl. destruct (Z.eqb_spec id 7) as [->|Hn]; simpl; [reflexivity|].
+        destruct (Z.eqb_spec 7 id); [congruence|reflexivity].
+      * intros k id Hk0. destruct k as [|[|k]]; simpl; [congruence| |]; destruct (Z.eqb id 7); reflexivity.
+      * reflexivity.
   - intros f j Hj Hf. simpl in Hf. destruct Hf as [<-|[<-|[]]]; destruct j as [|[|j]]; try lia; reflexivity.
 Qed.
